@@ -214,4 +214,23 @@ theorem u8x4_sse4_one_row_source_as_modelled : Fir.Gen.u8x4_sse4_one_row_skeleto
 example : Fir.SimdU8x4.pixel 12 [10, 20, 30, 40, 50, 60, 70, 80, 90, 100, 110, 120] 0 [2048, 1024, 1024] = [40, 50, 60, 70] := by
   rw [u8x4_sse4_one_row_eq_portable 12 (by norm_num)]; decide
 
+/-! ### ... and the four-row kernel of the same pass (`horiz_convolution_four_rows`) -/
+
+/-- every row of a four-row block is computed exactly like the portable kernel (masks `mask_lo`, `mask_hi`, `mask`
+    re-extracted from the source; 4 / 2 / 1 coefficient steps) -/
+theorem u8x4_sse4_four_rows_eq_portable (p : Nat) (hp : p < 32) (row : List Int) (start : Nat) (ks : List Int) :
+    Fir.SimdU8x4.pixelR p row start ks
+      = [clip8 (2 ^ (p - 1) + Fir.SimdU8x4.dotC row 0 ks start) p, clip8 (2 ^ (p - 1) + Fir.SimdU8x4.dotC row 1 ks start) p,
+         clip8 (2 ^ (p - 1) + Fir.SimdU8x4.dotC row 2 ks start) p, clip8 (2 ^ (p - 1) + Fir.SimdU8x4.dotC row 3 ks start) p] :=
+  Fir.Proofs.u8x4_sse4_four_rows_pixel_eq_portable p hp row start ks
+
+/-- so the whole SSE4.1 horizontal pass for U8x4 - four-row blocks and leftover rows alike - stores, for every
+    destination pixel, the bytes of the portable pass: which of the two kernels handles a row is invisible -/
+theorem u8x4_sse4_four_rows_eq_one_row (p : Nat) (hp : p < 32) (row : List Int) (start : Nat) (ks : List Int) :
+    Fir.SimdU8x4.pixelR p row start ks = Fir.SimdU8x4.pixel p row start ks :=
+  Fir.Proofs.u8x4_sse4_four_rows_eq_one_row p hp row start ks
+
+theorem u8x4_sse4_four_rows_source_as_modelled : Fir.Gen.u8x4_sse4_four_rows_skeleton =
+    "_mm_set1_epi32(1 << (PRECISION - 1)) ; chunks_exact(4) ; remainder() ; simd_utils::mm_load_and_clone_i16x2(k) ; simd_utils::mm_load_and_clone_i16x2(&k[2..]) ; simd_utils::loadu_si128(src_rows[0], x) ; _mm_shuffle_epi8(source, mask_lo) ; _mm_add_epi32(sss0, _mm_madd_epi16(pix, mmk_lo)) ; _mm_shuffle_epi8(source, mask_hi) ; _mm_add_epi32(sss0, _mm_madd_epi16(pix, mmk_hi)) ; simd_utils::loadu_si128(src_rows[1], x) ; _mm_shuffle_epi8(source, mask_lo) ; _mm_add_epi32(sss1, _mm_madd_epi16(pix, mmk_lo)) ; _mm_shuffle_epi8(source, mask_hi) ; _mm_add_epi32(sss1, _mm_madd_epi16(pix, mmk_hi)) ; simd_utils::loadu_si128(src_rows[2], x) ; _mm_shuffle_epi8(source, mask_lo) ; _mm_add_epi32(sss2, _mm_madd_epi16(pix, mmk_lo)) ; _mm_shuffle_epi8(source, mask_hi) ; _mm_add_epi32(sss2, _mm_madd_epi16(pix, mmk_hi)) ; simd_utils::loadu_si128(src_rows[3], x) ; _mm_shuffle_epi8(source, mask_lo) ; _mm_add_epi32(sss3, _mm_madd_epi16(pix, mmk_lo)) ; _mm_shuffle_epi8(source, mask_hi) ; _mm_add_epi32(sss3, _mm_madd_epi16(pix, mmk_hi)) ; chunks_exact(2) ; remainder() ; simd_utils::mm_load_and_clone_i16x2(k) ; simd_utils::loadl_epi64(src_rows[0], x) ; _mm_shuffle_epi8(pix, mask) ; _mm_add_epi32(sss0, _mm_madd_epi16(pix, mmk)) ; simd_utils::loadl_epi64(src_rows[1], x) ; _mm_shuffle_epi8(pix, mask) ; _mm_add_epi32(sss1, _mm_madd_epi16(pix, mmk)) ; simd_utils::loadl_epi64(src_rows[2], x) ; _mm_shuffle_epi8(pix, mask) ; _mm_add_epi32(sss2, _mm_madd_epi16(pix, mmk)) ; simd_utils::loadl_epi64(src_rows[3], x) ; _mm_shuffle_epi8(pix, mask) ; _mm_add_epi32(sss3, _mm_madd_epi16(pix, mmk)) ; first() ; _mm_set1_epi32(k as i32) ; simd_utils::mm_cvtepu8_epi32(src_rows[0], x) ; _mm_add_epi32(sss0, _mm_madd_epi16(pix, mmk)) ; simd_utils::mm_cvtepu8_epi32(src_rows[1], x) ; _mm_add_epi32(sss1, _mm_madd_epi16(pix, mmk)) ; simd_utils::mm_cvtepu8_epi32(src_rows[2], x) ; _mm_add_epi32(sss2, _mm_madd_epi16(pix, mmk)) ; simd_utils::mm_cvtepu8_epi32(src_rows[3], x) ; _mm_add_epi32(sss3, _mm_madd_epi16(pix, mmk)) ; _mm_srai_epi32::<PRECISION>(sss0) ; _mm_srai_epi32::<PRECISION>(sss1) ; _mm_srai_epi32::<PRECISION>(sss2) ; _mm_srai_epi32::<PRECISION>(sss3) ; _mm_packs_epi32(sss0, sss0) ; _mm_packs_epi32(sss1, sss1) ; _mm_packs_epi32(sss2, sss2) ; _mm_packs_epi32(sss3, sss3) ; _mm_cvtsi128_si32(_mm_packus_epi16(sss0, sss0)) ; _mm_cvtsi128_si32(_mm_packus_epi16(sss1, sss1)) ; _mm_cvtsi128_si32(_mm_packus_epi16(sss2, sss2)) ; _mm_cvtsi128_si32(_mm_packus_epi16(sss3, sss3))" := by rfl
+
 end Fir.C02
